@@ -49,15 +49,30 @@ def runnable(chain):
 def build(chain, flows):
     """flows: list of (kind, level).  Returns Module with export f(int p) -> int."""
     by_level = {}
-    for kind, j in flows:
-        by_level.setdefault(j, []).append(kind)
+    for fl in flows:
+        kind, j = fl[0], fl[1]
+        where = fl[2] if len(fl) > 2 else "after"
+        guarded = fl[3] if len(fl) > 3 else False
+        by_level.setdefault((j, where), []).append((kind, guarded))
     decls = []
     counters = []
 
-    def flow_stmts(j):
+    def nearest_counter(j):
+        """counter of the innermost braced loop enclosing level j (None when there is none)"""
+        for k in range(j - 1, -1, -1):
+            if chain[k] in ("for", "while", "do"):
+                return "c%d" % k
+        return None
+
+    def flow_stmts(j, where="after"):
         out = []
-        for kind in by_level.get(j, []):
-            out.append(Break() if kind == "break" else Continue())
+        for kind, guarded in by_level.get((j, where), []):
+            st = Break() if kind == "break" else Continue()
+            ctr = nearest_counter(j)
+            if guarded and ctr is not None:
+                # taken on some iterations only (the counters count 1, 12, 23, ... per completed iteration)
+                st = If(B("==", B("%", V(ctr), I(3)), B("%", V("p"), I(3))), st)
+            out.append(st)
         return out
 
     def cond(k):
@@ -68,7 +83,7 @@ def build(chain, flows):
         inner = []
         if k < len(chain):
             inner = construct(k)
-        return inner + flow_stmts(k)
+        return flow_stmts(k, "before") + inner + flow_stmts(k, "after")
 
     def wrap(stmts, braced):
         if braced:
@@ -152,6 +167,8 @@ def single_cases(max_len):
 
 
 def random_case(rng, min_len, max_len):
+    """several flow statements, before and after the nested construct of their level, mostly guarded so that the
+    code behind them stays reachable (an outer break *before* an inner loop that contains a continue, ...)"""
     n = rng.randint(min_len, max_len)
     chain = tuple(rng.choice(CONSTRUCTS) for _ in range(n))
     levels = [j for j in range(n + 1) if placeable(chain, j)]
@@ -159,13 +176,32 @@ def random_case(rng, min_len, max_len):
         must = n
     else:
         must = None
-    k = rng.choice([1, 1, 2, 3])
+    k = rng.choice([1, 2, 2, 3, 4])
     flows = []
     if must is not None:
-        flows.append((rng.choice(["break", "continue"]), must))
-    while len(flows) < k:
+        flows.append((rng.choice(["break", "continue"]), must, "after", rng.random() < 0.5))
+    tries = 0
+    while len(flows) < k and tries < 20:
+        tries += 1
         j = rng.choice(levels)
-        if any(fj == j for _, fj in flows):
-            break
-        flows.append((rng.choice(["break", "continue"]), j))
+        where = rng.choice(["before", "after"]) if j < n else "after"
+        # an unbraced construct holds exactly one statement: no second statement at a level whose parent is unbraced
+        if j > 0 and chain[j - 1] in UNBRACED:
+            continue
+        if any(f[1] == j and f[2] == where for f in flows):
+            continue
+        flows.append((rng.choice(["break", "continue"]), j, where, rng.random() < 0.8))
     return chain, flows
+
+
+def paired_cases():
+    """outer flow statement before an inner loop that has its own flow statement: all loop-kind pairs x kinds"""
+    braced = ("for", "while", "do")
+    for outer in braced:
+        for inner in braced:
+            for mid in ((), ("block",), ("if",), ("ifelse_else",)):
+                for k0 in ("break", "continue"):
+                    for k1 in ("break", "continue"):
+                        chain = (outer,) + mid + (inner,)
+                        yield chain, [(k0, 1, "before", True), (k1, len(chain), "after", True)]
+                        yield chain, [(k0, 1, "before", True), (k0, 1, "after", True), (k1, len(chain), "after", True)]
